@@ -247,6 +247,14 @@ def entries():
     add("FourDs(lmbda=0.3)", "FourDs", {"lmbda": 0.3}, model="fourds", cost=3)
     add("ProbCover(alpha=0.5)", "ProbCover", {"alpha": 0.5}, model=None, rows=False, cost=3)
     add("TypiClust(k=2)", "TypiClust", {"k": 2}, model=None, rows=False, cost=3)
+    # another clustering algorithm than the default KMeans (MiniBatchKMeans may leave cluster ids unused)
+    from sklearn.cluster import MiniBatchKMeans
+
+    add("TypiClust(MiniBatchKMeans)", "TypiClust", {"cluster_algo": MiniBatchKMeans}, model=None, rows=False, cost=3)
+    add("ProbCover(MiniBatchKMeans)", "ProbCover", {"cluster_algo": MiniBatchKMeans}, model=None, rows=False, cost=3)
+    add("Clue(MiniBatchKMeans)", "Clue", {"cluster_algo": MiniBatchKMeans}, model="clf_embed", rows=False, cost=3)
+    add("DropQuery(MiniBatchKMeans)", "DropQuery", {"cluster_algo": MiniBatchKMeans}, model="clf_embed", rows=False,
+        cost=3)
     add("ValueOfInformationEER(consider_unlabeled)", "ValueOfInformationEER", {"consider_unlabeled": True},
         model="clf", rows=False, samplewise=True, arbitrary_idx=False, cost=3)
     add("ValueOfInformationEER(candidate_to_labeled)", "ValueOfInformationEER", {"candidate_to_labeled": True},
@@ -265,7 +273,7 @@ def entries():
 WRAPPERS = ("SubSamplingWrapper", "ParallelUtilityEstimationWrapper")
 
 
-def wrapper_entries():
+def wrapper_entries(mcs=(1.0, 50)):
     """SubSamplingWrapper as a pool strategy of its own (C01 / C02): the sub-sample is the whole candidate set (in
     random order), so a batch can always be filled; C20 relates it to the wrapped strategy, C14 runs the loop"""
     from skactiveml.pool import SubSamplingWrapper
@@ -274,7 +282,7 @@ def wrapper_entries():
     out = []
     for inner_name in ("UncertaintySampling(entropy)", "RandomSampling"):
         inner = base[inner_name]
-        for mc in (1.0, 50):
+        for mc in mcs:
             for excl in (False, True):
                 def make(seed, ml=np.nan, classes=(0, 1), inner=inner, mc=mc, excl=excl):
                     return SubSamplingWrapper(inner.make(seed, ml, classes), max_candidates=mc,
